@@ -8,6 +8,8 @@ Shangrla.NM.sampleSize.
   op "interleave"    Assertion.interleave_values
   op "contest"       Contest.find_sample_size (assertions made by make_plurality_assertions)
   op "audit_contest" Audit.find_sample_size: con.sample_size = max over the unproved assertions
+  op "audit"         Audit.find_sample_size on 2-4 contests in one call (dict orders, style / no style, polling,
+                     comparison, ONEAudit with the error injection): every con.sample_size and the returned total
   op "raire"         shangrla/raire/sample_estimator.py: sample_size
 
 Numbers in a case are exact "p/q" strings: the implementation receives float(p/q), the model p/q.
@@ -32,10 +34,14 @@ RULE = ("nm: test x estimator/bet configs of group nm with finite N <= 60 (quick
         "for POLLING (tally incl. zeros, inconsistent totals), CARD_COMPARISON, ONEAUDIT with rate_1/rate_2 on a "
         "grid incl. 0, None, 1, >1, negative; data given; IRV / missing tally / unknown audit type / margin <= 0 / "
         "margin None / N = inf / upper bound 0; interleave: triples of small counts incl. zeros, negatives, equal "
-        "values; contest/audit_contest: 1-4 assertions, with and without MVR sample, proved flags; raire: both "
+        "values; contest/audit_contest: 1-4 assertions, with and without MVR sample, proved flags; audit: the real "
+        "Audit.find_sample_size on 2-4 contests in one call (tight and landslide contests in random dict order, "
+        "use_style True/False, POLLING / CARD_COMPARISON / ONEAUDIT incl. the error injection, with and without MVRs, "
+        "proved flags; every con.sample_size and the no-style total are compared); raire: both "
         "branches. Excluded from the diff (counted as fragile, still seen by the oracle): a float comparison within "
         "1e-9 of its threshold (history entry vs risk limit, null mean vs 0 or u, total vs N t), int(1/rate) "
-        "differing between float and exact arithmetic, alternative eta within ulps of u. non-trivial = not a "
+        "differing between float and exact arithmetic, alternative eta within ulps of u, a factor of the running product below 1e-6 (all only up to the model's first "
+        "crossing). non-trivial = not a "
         "constant pilot, not a single interleaved value; distinct = distinct canonical input")
 EXHAUSTIVE = {"quick": False, "thorough": False}
 
@@ -87,10 +93,10 @@ def tails_idx(call):
 # ---------------------------------------------------------------------------------------------
 # building the real objects
 
-def build_contest(asn, glue_test=False):
+def build_contest(asn, glue_test=False, cid="c"):
     from shangrla.core.Audit import Contest
     from shangrla.core.NonnegMean import NonnegMean as NM
-    d = {"id": "c", "name": "c", "risk_limit": flt(asn["risk_limit"]), "cards": asn["cards"],
+    d = {"id": cid, "name": cid, "risk_limit": flt(asn["risk_limit"]), "cards": asn["cards"],
          "choice_function": "IRV" if asn["irv"] else "PLURALITY", "n_winners": 1,
          "candidates": asn.get("candidates") or [asn["winner"], asn["loser"]], "winner": [asn["winner"]],
          "audit_type": asn["audit_type"], "use_style": asn.get("use_style", True),
@@ -126,14 +132,13 @@ def build_assertion(asn):
     return Assertion(con, winner=w, loser=l, assorter=assorter, margin=flt(asn["margin"]), test=NMG.make_nm(asn["init"]))
 
 
-def build_multi(case):
-    """contest with several assertions made by make_plurality_assertions (contest / audit_contest)"""
+def build_multi_c(c, proved=None, cid="c"):
+    """contest `c` (id `cid`) with the assertions made by make_plurality_assertions"""
     from shangrla.core.Audit import Assertion
-    c = case["contest"]
     asn0 = {"risk_limit": c["risk_limit"], "cards": c["cards"], "irv": c.get("irv", False), "winner": c["winners"][0],
             "loser": c["losers"][0], "candidates": c["candidates"], "audit_type": c["audit_type"],
             "tally": c["tally"], "init": c["init"], "use_style": c.get("use_style", True)}
-    con = build_contest(asn0, glue_test=True)
+    con = build_contest(asn0, glue_test=True, cid=cid)
     con.winner = list(c["winners"])
     kw = {k: flt(v) for k, v in c["init"]["kw"].items() if v is not None and k != "g"}
     con.assertions = Assertion.make_plurality_assertions(con, winner=c["winners"], loser=c["losers"], test_kwargs=kw)
@@ -141,9 +146,46 @@ def build_multi(case):
     for i, (key, a) in enumerate(con.assertions.items()):
         if c["audit_type"] != "POLLING" and a.margin is not None and 2 - a.margin != 0:
             a.test.u = 2 / (2 - a.margin / a.assorter.upper_bound)   # as set_margin_from_cvrs does
-        if case.get("proved") and case["proved"][i]:
+        if proved and proved[i]:
             a.proved = True
     return con
+
+
+def build_multi(case):
+    """contest with several assertions made by make_plurality_assertions (contest / audit_contest)"""
+    return build_multi_c(case["contest"], case.get("proved"))
+
+
+def build_cards(cards):
+    """CVR objects from a list of {contest id: candidate | None (contest on the card, no vote)}"""
+    from shangrla.core.Audit import CVR
+    return CVR.from_dict([{"id": str(i), "votes": {cid: ({v: True} if v is not None else {}) for cid, v in card.items()},
+                           "sample_num": i, "sampled": False} for i, card in enumerate(cards)])
+
+
+def build_audit_multi(case):
+    """(audit, {id: contest}) of an `audit` case, contests in the case's (dict) order"""
+    from shangrla.core.Audit import Audit
+    au = case["audit"]
+    audit = Audit.from_dict({"quantile": flt(au["quantile"]), "error_rate_1": flt(au["rate_1"]),
+                             "error_rate_2": flt(au["rate_2"]), "reps": au["reps"], "sim_seed": au["seed"],
+                             "strata": {"s": {"max_cards": max(c["cards"] for c in case["contests"]),
+                                              "use_style": case["use_style"], "replacement": False}}})
+    contests = {c["id"]: build_multi_c(dict(c, use_style=case["use_style"]), c.get("proved"), cid=c["id"])
+                for c in case["contests"]}
+    return audit, contests
+
+
+def run_audit(case, only=None):
+    """the real Audit.find_sample_size on the case's contests (or on the single contest `only`)"""
+    audit, contests = build_audit_multi(case)
+    if only is not None:
+        contests = {only: contests[only]}
+    cvrs = None if case["cvrs"] is None else build_cards(case["cvrs"])
+    mvr = None if case["mvr"] is None else build_cards(case["mvr"])
+    cvr = None if case.get("cvr") is None else build_cards(case["cvr"])
+    tot = audit.find_sample_size(contests, cvrs=cvrs, mvr_sample=mvr, cvr_sample=cvr)
+    return {cid: int(con.sample_size) for cid, con in contests.items()}, float(tot)
 
 
 def build_audit(case):
@@ -203,6 +245,9 @@ def observe(case):
                 cvrs = build_cvrs(case["cvrs"])
                 tot = audit.find_sample_size({"c": con}, cvrs=cvrs, mvr_sample=mvr, cvr_sample=cvr)
                 res = {"st": "ok", "n": int(con.sample_size), "total": float(tot)}
+            elif op == "audit":
+                sizes, tot = run_audit(case)
+                res = {"st": "ok", "sizes": [sizes[c["id"]] for c in case["contests"]], "total": tot}
             elif op == "raire":
                 from shangrla.raire.sample_estimator import sample_size
                 args = types.SimpleNamespace(erate1=flt(case["erate1"]), erate2=flt(case["erate2"]),
@@ -218,7 +263,7 @@ def observe(case):
     calls = spy.calls
     if calls and op in ("find", "raire"):
         res["pop"] = calls[0]["x"]
-    if op in ("contest", "audit_contest"):
+    if op in ("contest", "audit_contest", "audit"):
         res["pops"] = [c["x"] for c in calls]
     return res, calls
 
@@ -249,15 +294,14 @@ def asn_json(asn):
             "risk_limit": asn["risk_limit"], "init": asn["init"]}
 
 
-def multi_items(case, calls):
-    """the model's view of the assertions of a `contest` / `audit_contest` case, in the code's order"""
-    c = case["contest"]
+def items_of(c, op, has_mvr, reps, proved, calls, ci=0, base=None):
+    """the model's view of the assertions of contest `c`, in the code's order; `calls[ci:]` are the recorded calls
+    of NonnegMean.sample_size that belong to it; returns (items, next ci).  `base[i]`: raw ONEAudit data of
+    assertion i (op "audit"), into which the model writes the assumed errors itself"""
     tl = {k: v for k, v in c["tally"]} if c["tally"] is not None else {}
     items = []
-    has_mvr = case["mvr"] is not None
     pairs = [(w, l) for w in c["winners"] for l in c["losers"]]
-    proved = case.get("proved") or [False] * len(pairs)
-    ci = 0
+    proved = proved or [False] * len(pairs)
     for i, (w, l) in enumerate(pairs):
         m = F(tl[w] - tl[l], c["cards"])
         init = dict(c["init"])
@@ -269,19 +313,57 @@ def multi_items(case, calls):
         asn = {"audit_type": c["audit_type"], "irv": c.get("irv", False), "tally": c["tally"], "winner": w, "loser": l,
                "upper_bound": "1", "margin": S(m), "risk_limit": c["risk_limit"], "init": init}
         it = {"a": asn_json(asn), "proved": bool(proved[i]), "tails": None, "mvr_data": None, "cvr_data": None}
-        skipped = case["op"] == "audit_contest" and proved[i]
+        skipped = op in ("audit_contest", "audit") and proved[i]
+        if base is not None and base[i] is not None:
+            it["cvr_data"] = [fr(v) for v in base[i]]
         if not skipped and ci < len(calls):
             call = calls[ci]
             ci += 1
             it["tails"] = tails_idx(call)
             if has_mvr:
                 it["mvr_data"] = [fr(v) for v in call["x"]]
-            elif c["audit_type"] == "ONEAUDIT":
+            elif c["audit_type"] == "ONEAUDIT" and base is None:
                 it["cvr_data"] = [fr(v) for v in call["x"]]
-        elif not skipped and case["audit"]["reps"] is not None:
+        elif not skipped and reps is not None:
             it["tails"] = []
         items.append(it)
-    return items
+    return items, ci
+
+
+def multi_items(case, calls):
+    """`contest` / `audit_contest`: one contest"""
+    return items_of(case["contest"], case["op"], case["mvr"] is not None, case["audit"]["reps"],
+                    case.get("proved"), calls)[0]
+
+
+def oneaudit_base(case):
+    """{contest id: [raw asn.mvrs_to_data(cvrs, cvrs, use_all=True)[0] per assertion]} from the real code, for the
+    ONEAudit contests of an `audit` case without MVRs"""
+    out = {}
+    if case["mvr"] is not None or case["cvrs"] is None:
+        return out
+    _, contests = build_audit_multi(case)
+    for c in case["contests"]:
+        if c["audit_type"] != "ONEAUDIT":
+            continue
+        rows = []
+        for a in contests[c["id"]].assertions.values():
+            cv = build_cards(case["cvrs"])
+            r = impl_call(lambda a=a, cv=cv: a.mvrs_to_data(cv, cv, use_all=True)[0])
+            rows.append(None if isinstance(r, dict) else [float(v) for v in r])
+        out[c["id"]] = rows
+    return out
+
+
+def audit_request(case, calls):
+    au = case["audit"]
+    base = oneaudit_base(case)
+    ci, cs = 0, []
+    for c in case["contests"]:
+        items, ci = items_of(c, "audit", case["mvr"] is not None, au["reps"], c.get("proved"), calls, ci, base.get(c["id"]))
+        cs.append({"audit_type": c["audit_type"], "items": items})
+    return {"has_mvr": case["mvr"] is not None, "contests": cs, "rate_1": au["rate_1"], "rate_2": au["rate_2"],
+            "quantile": au["quantile"]}
 
 
 def dyadic(v):
@@ -304,6 +386,16 @@ def exact_ok(case):
             return True
         tl = dict(c["tally"])
         return all(dyadic(F(tl[w] - tl[l], c["cards"])) for w in c["winners"] for l in c["losers"])
+    if op == "audit":
+        if case["mvr"] is not None:
+            return True
+        for c in case["contests"]:
+            if c["audit_type"] == "POLLING":
+                continue
+            tl = dict(c["tally"])
+            if not all(dyadic(F(tl[w] - tl[l], c["cards"])) for w in c["winners"] for l in c["losers"]):
+                return False
+        return True
     if op == "raire":
         return case["polling"] or (dyadic(case["mean"]) and case["upper_bound"] in ("1", "2"))
     return True
@@ -335,6 +427,8 @@ def request0(case):
         return (NAME, op, {"audit_type": case["contest"]["audit_type"], "has_mvr": case["mvr"] is not None,
                            "items": multi_items(case, calls), "rate_1": au["rate_1"], "rate_2": au["rate_2"],
                            "quantile": au["quantile"]})
+    if op == "audit":
+        return (NAME, "audit", audit_request(case, calls))
     if op == "raire":
         t = tails_idx(calls[0]) if calls else ([] if case["reps"] is not None else None)
         return (NAME, "raire", {k: case[k] for k in ("mean", "tw", "tl", "to", "erate1", "erate2", "rlimit", "N",
@@ -351,6 +445,12 @@ def compare(case, ir, mr):
         return f"status differs: impl={ir.get('st')}/{ir.get('err')} ({ir.get('msg')}) model={mr.get('st')}/{mr.get('err')}"
     if ir["st"] == "err":
         return None if ir["err"] == mr["err"] else f"error kind differs: impl {ir['err']} model {mr['err']}"
+    if case["op"] == "audit":
+        if ir["sizes"] != mr["sizes"]:
+            return f"per-contest sample sizes differ: impl {ir['sizes']} model {mr['sizes']} (contests {[c['id'] for c in case['contests']]})"
+        if not case["use_style"] and mr["total_nostyle"] != int(ir["total"]):
+            return f"returned total (no style) differs: impl {ir['total']} model {mr['total_nostyle']}"
+        return None
     if case["op"] == "interleave":
         return None if pops_close(ir["x"], mr["x"]) else f"interleaved values differ: impl {ir['x'][:12]} model {mr['x'][:12]}"
     if "pop" in ir and "pop" in mr and not pops_close(ir["pop"], mr["pop"]):
@@ -395,6 +495,8 @@ def inits_of(case):
         return [case["asn"]["init"]]
     if op in ("contest", "audit_contest"):
         return [case["contest"]["init"]]
+    if op == "audit":
+        return [c["init"] for c in case["contests"]]
     return []
 
 
@@ -443,6 +545,15 @@ def signature(case, ir):
     elif op in ("contest", "audit_contest"):
         tag = f"{op}:{case['contest']['audit_type']}:{'mvr' if case['mvr'] is not None else 'nomvr'}:{'det' if case['audit']['reps'] is None else 'sim'}"
         N = case["contest"]["cards"]
+    elif op == "audit":
+        types = "+".join(sorted({c["audit_type"][:4] for c in case["contests"]}))
+        tag = (f"audit:{len(case['contests'])}:{types}:{'style' if case['use_style'] else 'nostyle'}:"
+               f"{'mvr' if case['mvr'] is not None else 'nomvr'}:{'det' if case['audit']['reps'] is None else 'sim'}")
+        if ir.get("st") != "ok":
+            return tag + ":err:" + str(ir.get("err"))
+        sz = ir["sizes"]
+        # "desc": some contest is preceded by one with a larger estimate (a running maximum would show)
+        return tag + (":desc" if any(sz[i] > sz[j] for i in range(len(sz)) for j in range(i + 1, len(sz))) else ":nondesc")
     else:
         tag = f"raire:{'polling' if case['polling'] else 'comparison'}:{'det' if case['reps'] is None else 'sim'}"
         N = case["N"]
@@ -692,6 +803,90 @@ def gen_multi(rng, tier, op):
     return case
 
 
+def gen_contest_spec(rng, cid, at, kind):
+    """one contest of an `audit` case: `tight` (needs a large sample) or `landslide` (a small one)"""
+    N = rng.choice([8, 16, 16, 32, 32, 64])      # powers of two: margins are binary fractions, float populations exact
+    cands = [cid + x for x in ["A", "B", "C", "D"][: rng.choice([2, 3, 3, 4])]]
+    k = len(cands)
+    if kind == "tight":
+        w = N // 2 - rng.randint(0, 2)
+        l = max(0, w - rng.randint(1, 3))
+    elif kind == "landslide":
+        w = N - rng.randint(0, N // 5)
+        l = rng.randint(0, max(0, (N - w) // 2))
+    else:
+        w = rng.randint(N // 3, N)
+        l = rng.randint(0, min(w - 1, N - w)) if w > 0 else 0
+    rest = N - w - l
+    others = []
+    for j in range(k - 2):
+        v = rng.randint(0, min(rest, l)) if j < k - 3 else rng.randint(0, min(rest, l))
+        others.append(v)
+        rest -= v
+    counts = [w, l] + others
+    nw = 1
+    winners, losers = cands[:nw], cands[nw:]
+    tally = [[c, int(v)] for c, v in zip(cands, counts)]
+    init = gen_init(rng, N, u=F(1))
+    init["ro"] = True
+    init["u"] = "1"
+    if init["test"] is None:
+        init["test"] = "alpha_mart"
+    if init.get("estim") == "optimal_comparison" and at == "POLLING":
+        init["estim"] = "shrink_trunc"
+        init["kw"].pop("rate_error_2", None)
+    init["kw"].setdefault("g", S(rng.choice([F(1, 10), F(0), F(1, 4)])))
+    return {"id": cid, "audit_type": at, "cards": N, "risk_limit": S(rng.choice(ALPHAS)), "candidates": cands,
+            "winners": winners, "losers": losers, "tally": tally, "init": init,
+            "proved": [rng.chance(0.2) for _ in range(len(winners) * len(losers))]}
+
+
+def gen_audit(rng, tier):
+    """Audit.find_sample_size on 2-4 contests in one call"""
+    n = rng.choice([2, 2, 3, 3, 4])
+    with_mvr = rng.chance(0.35)
+    types = ["POLLING", "CARD_COMPARISON", "CARD_COMPARISON"] + ([] if with_mvr else ["ONEAUDIT"])
+    kinds = [rng.choice(["tight", "landslide", "any"]) for _ in range(n)]
+    if rng.chance(0.5):
+        kinds[0], kinds[-1] = "tight", "landslide"          # a large estimate first, a small one last
+    ids = rng.sample(["k1", "k2", "k3", "k4", "zz", "aa"], n)   # dict order is not sorted order
+    contests = [gen_contest_spec(rng, cid, rng.choice(types), kind) for cid, kind in zip(ids, kinds)]
+    if rng.chance(0.3):
+        for c in contests:
+            c["proved"] = [False] * len(c["proved"])
+    use_style = rng.chance(0.5)
+    ncards = rng.randint(4, 10)
+    cards = [{c["id"]: rng.choice(c["candidates"]) for c in contests} for _ in range(ncards)]
+    reps = None if rng.chance(0.65) else rng.choice([1, 2, 3])
+    audit = {"rate_1": S(rng.choice([r for r in RATES if r is not None])),
+             "rate_2": S(rng.choice([F(0), F(0), F(1, 10), F(1, 100), F(1, 4)])),
+             "reps": reps, "quantile": S(rng.choice(QUANTS)), "seed": rng.randint(0, 2 ** 32 - 1)}
+    need_cvrs = use_style or any(c["audit_type"] == "ONEAUDIT" for c in contests)
+    case = {"op": "audit", "use_style": use_style, "contests": contests, "audit": audit,
+            "cvrs": cards if need_cvrs or rng.chance(0.5) else None, "mvr": None, "cvr": None}
+    if rng.chance(0.08):
+        # malformed: the call must raise at the first contest (in dict order) that cannot be estimated
+        if rng.chance(0.5):
+            audit["rate_1"] = S(rng.choice(BADRATES))
+        else:
+            c = rng.choice(contests)
+            c["tally"][1][1] = c["tally"][0][1]            # a tie: margin 0, AssertionError
+            c["proved"] = [False] * len(c["proved"])
+    if with_mvr:
+        m = rng.randint(1, max(1, min(8, min(c["cards"] for c in contests) - 1)))
+        mv = []
+        for _ in range(m):
+            card = {}
+            for c in contests:
+                pool = [x for x, v in c["tally"] for _ in range(v)] or c["candidates"]
+                card[c["id"]] = rng.choice(pool) if c["audit_type"] != "POLLING" or rng.chance(0.9) else None
+            mv.append(card)
+        case["mvr"] = mv
+        case["cvr"] = [{cid: (v if rng.chance(0.85) and v is not None else rng.choice([c for c in contests if c["id"] == cid][0]["candidates"]))
+                        for cid, v in card.items()} for card in mv]
+    return case
+
+
 def gen_raire(rng, tier):
     N = rng.choice([10, 20, 40, 60, 100])
     tw = rng.randint(N // 3, N)
@@ -728,6 +923,22 @@ def corpus():
         return {"op": "find", "asn": a, "data": data, "prefix": prefix, "rate_1": r1, "rate_2": r2, "reps": reps,
                 "seed": seed, "quantile": q, "stream": stream}
 
+    def audit2(order, use_style, types=("CARD_COMPARISON", "CARD_COMPARISON")):
+        # a tight contest (large estimate) and a landslide (small estimate) in one call, in the given dict order
+        i0 = init(N=32, eta="3/4", g="1/10")
+        i0["u"] = "1"
+        cs = {"city": {"id": "city", "audit_type": types[0], "cards": 32, "risk_limit": "1/5", "candidates": ["A", "B", "C"],
+                       "winners": ["A"], "losers": ["B", "C"], "tally": [["A", 18], ["B", 10], ["C", 2]], "init": i0,
+                       "proved": [False, False]},
+              "county": {"id": "county", "audit_type": types[1], "cards": 16, "risk_limit": "1/5", "candidates": ["D", "E"],
+                         "winners": ["D"], "losers": ["E"], "tally": [["D", 14], ["E", 2]], "init": dict(i0, N=16),
+                         "proved": [False]}}
+        cards = [{"city": "A", "county": "D"}, {"city": "B", "county": "D"}, {"city": "A", "county": "E"},
+                 {"city": "C", "county": "D"}, {"city": "A", "county": "D"}]
+        return {"op": "audit", "use_style": use_style, "contests": [cs[k] for k in order],
+                "audit": {"rate_1": "1/10", "rate_2": "0", "reps": None, "quantile": "1/2", "seed": 1},
+                "cvrs": cards, "mvr": None, "cvr": None}
+
     def il(a, b, c, s="0", m="1/2", g="1"):
         return {"op": "interleave", "n_small": a, "n_med": b, "n_big": c, "small": s, "med": m, "big": g}
 
@@ -749,6 +960,9 @@ def corpus():
              reps=3, prefix=True, seed=3),
         find(asn("CARD_COMPARISON", [["A", 30], ["B", 10]], 40, "1/2", init(N=40, u="4/3", eta="5/4")), r1="1/10",
              r2="1/7", reps=3, seed=3, q="9/10"),
+        audit2(["city", "county"], True), audit2(["county", "city"], True), audit2(["city", "county"], False),
+        audit2(["city", "county"], False, types=("POLLING", "POLLING")),
+        audit2(["city", "county"], True, types=("ONEAUDIT", "CARD_COMPARISON")),
         il(5, 3, 6), il(0, 3, 6, "1/10", "1", "2"), il(3, 2, 0), il(0, 0, 4), il(0, 5, 0), il(7, 0, 0), il(0, 0, 0),
         il(1, 1, 1), il(2, 0, 5), il(1, 0, 0),
     ]
@@ -765,8 +979,10 @@ def gen(rng, n, tier):
             yield gen_interleave(rng, tier)
         elif r < 0.86:
             yield gen_multi(rng, tier, "contest")
-        elif r < 0.93:
+        elif r < 0.90:
             yield gen_multi(rng, tier, "audit_contest")
+        elif r < 0.96:
+            yield gen_audit(rng, tier)
         else:
             yield gen_raire(rng, tier)
 
@@ -971,6 +1187,47 @@ def oracle_c16(case, ir):
         want = max(each) if each else 0
         if ir["n"] != want:
             return {"what": f"contest estimate {ir['n']} but the largest of its assertions' estimates {each} is {want}"}
+        return None
+    if op == "audit":
+        # each contest's estimate is the largest among ITS OWN (unproved) assertions' estimates: it does not depend
+        # on which other contests are estimated in the same call, nor on their order
+        audit, contests = build_audit_multi(case)
+        mvr = None if case["mvr"] is None else build_cards(case["mvr"])
+        cvr = None if case.get("cvr") is None else build_cards(case["cvr"])
+        for c, got in zip(case["contests"], ir["sizes"]):
+            cid = c["id"]
+            alone = impl_call(lambda: run_audit(case, only=cid))
+            if not isinstance(alone, dict) or "st" not in alone:
+                if alone[0][cid] != got:
+                    return {"what": f"contest {cid}: sample_size {got} when estimated together with "
+                                    f"{[x['id'] for x in case['contests'] if x['id'] != cid]} (dict order "
+                                    f"{[x['id'] for x in case['contests']]}), but {alone[0][cid]} when estimated alone"}
+            con = contests[cid]
+            if con.audit_type == "ONEAUDIT" and mvr is None:
+                continue
+            each = []
+            ok = True
+            for a in con.assertions.values():
+                if a.proved:
+                    continue
+                def one(a=a):
+                    if mvr is not None:
+                        data, _ = a.mvrs_to_data(mvr, cvr)
+                        return a.find_sample_size(data=data, prefix=True, reps=audit.reps, quantile=audit.quantile, seed=audit.sim_seed)
+                    return a.find_sample_size(data=None, rate_1=audit.error_rate_1, rate_2=audit.error_rate_2, reps=audit.reps,
+                                              quantile=audit.quantile, seed=audit.sim_seed)
+                r = impl_call(one)
+                if isinstance(r, dict):
+                    ok = False
+                    break
+                each.append(int(r))
+            if ok:
+                want = max(each) if each else 0
+                if got != want:
+                    return {"what": f"contest {cid}: sample_size {got} but the largest of its own assertions' estimates {each} is {want} "
+                                    f"(dict order {[x['id'] for x in case['contests']]}, all sizes {ir['sizes']})"}
+        if not case["use_style"] and int(ir["total"]) != max(ir["sizes"]):
+            return {"what": f"returned total {ir['total']} is not the largest contest estimate of {ir['sizes']}"}
         return None
     if op == "raire":
         pop = ir.get("pop")
